@@ -390,3 +390,152 @@ def check_receive_kind(ck, P, rid):
             else:
                 ck.violated(rid, inst, c.where, "%s is not selected by the message size" % c.callee, cfg)
     ck.expect(rid, n, 4, "receive-count call sites")
+
+
+# --------------------------------------------------------------------------------------------------------------
+# the round protocol's constants: rendezvous thresholds, colour flip, closed colour, read-and-clear
+# --------------------------------------------------------------------------------------------------------------
+# (case label, counter, a thread may go on iff the counter equals ...)   — confirmed by reading gvt_thread_phase_run
+THRESHOLDS = [("thread_phase_A", "c_a", "zero"), ("thread_phase_B", "c_b", "threads"), ("thread_phase_C", "c_a", "threads"), ("thread_phase_D", "c_b", "zero")]
+
+
+def _case_label_of(f, node):
+    sc = f.cfg.switch_case_of(node)
+    if sc is None:
+        return set()
+    labels = set()
+    for v in sc[1]:
+        for L in f.walk():
+            if L.k == "CaseStmt" and L.d.get("val") == v and L.d.get("label"):
+                labels.add(L.d["label"])
+    return labels
+
+
+def check_round_protocol(ck, P, rid):
+    from . import ceval
+    cfg = P.config
+    f = P.fn("gvt_thread_phase_run")
+    n = 0
+    for case, ctr, when in THRESHOLDS:
+        inst = "threshold:%s" % case
+        loads = [a for a in Q.atomics(f) if Q.atomic_kind(a) == "load" and Q.atomic_target(a)[1] == ctr and case in _case_label_of(f, a)]
+        if len(loads) != 1:
+            ck.inconclusive(rid, inst, f.where, "expected one load of %s under %s (the round protocol changed shape)" % (ctr, case), cfg)
+            continue
+        a = loads[0]
+        # the enclosing `if(cond) break;`
+        ifs = a.parent
+        while ifs is not None and ifs.k != "IfStmt":
+            ifs = ifs.parent
+        if ifs is None:
+            ck.inconclusive(rid, inst, a.where, "the counter is not tested by an if", cfg)
+            continue
+        kids = [c for c in ifs.children if c.k != "Null"]
+        if not any(x.k == "BreakStmt" for x in kids[1].walk()):
+            ck.inconclusive(rid, inst, ifs.where, "the test does not guard a break", cfg)
+            continue
+        n += 1
+        core, neg = X.strip_bool(kids[0])
+        bad = None
+        unknown = False
+        for nthr in range(1, 9):
+            for v in range(0, nthr + 1):
+                # value of the condition with the load returning v
+                if core is a or (core.k == "AtomicExpr"):
+                    waits = bool(v)
+                elif core.k == "BinaryOperator" and core.op in ("!=", "==", "<", ">", "<=", ">="):
+                    l, r = X.strip(core.children[0]), X.strip(core.children[1])
+                    env = {"global_config.n_threads": nthr}
+                    lv = v if (l is a or a.is_inside(l)) and l.k == "AtomicExpr" else ceval.ev(core.children[0], env)
+                    rv = v if (r is a or a.is_inside(r)) and r.k == "AtomicExpr" else ceval.ev(core.children[1], env)
+                    if lv is None or rv is None:
+                        unknown = True
+                        break
+                    waits = {"!=": lv != rv, "==": lv == rv, "<": lv < rv, ">": lv > rv, "<=": lv <= rv, ">=": lv >= rv}[core.op]
+                else:
+                    unknown = True
+                    break
+                if neg:
+                    waits = not waits
+                want_go = (v == 0) if when == "zero" else (v == nthr)
+                if (not waits) != want_go and bad is None:
+                    bad = (nthr, v, not waits)
+            if unknown:
+                break
+        if unknown:
+            ck.inconclusive(rid, inst, ifs.where, "wait condition `%s` not evaluable" % X.show(kids[0])[:80], cfg)
+        elif bad:
+            ck.violated(rid, inst, ifs.where, "with %d thread(s) and %s = %d a thread in %s %s, but it may go on exactly when the counter is %s: a thread leaves the rendezvous before all have sampled "
+                        "(or none ever does)" % (bad[0], ctr, bad[1], case, "goes on" if bad[2] else "waits", "0" if when == "zero" else "the thread count"), cfg)
+        else:
+            ck.holds(rid, inst, ifs.where, "goes on exactly when %s == %s (1..8 threads)" % (ctr, "0" if when == "zero" else "n_threads"), cfg)
+    ck.expect(rid, n, 4, "rendezvous tests of the thread-level reduction")
+
+    g = P.fn("gvt_node_phase_run")
+    # colour flip: once per round, when the first reduction completes
+    flips = [s for s in g.walk() if s.k in ("BinaryOperator", "CompoundAssignOperator") and (s.k == "CompoundAssignOperator" or s.op == "=") and X.show(X.strip(s.children[0])) == "gvt_phase"]
+    inst = "colour-flip"
+    first, second = P.enum_const("node_phase_redux_first"), P.enum_const("node_phase_redux_second")
+    if len(flips) != 1 or first is None or second is None:
+        ck.inconclusive(rid, inst, g.where, "expected exactly one update of gvt_phase in the node automaton", cfg)
+    else:
+        s0 = flips[0]
+        bad = None
+        for col in (0, 1):
+            for ph, want_flip in ((first, True), (second, False)):
+                env = {"gvt_phase": col, "node_phase": ph}
+                if s0.k == "CompoundAssignOperator":
+                    v = ceval.ev(s0.children[1], env)
+                    new = None if v is None else {"^=": col ^ v, "+=": col + v, "-=": col - v}.get(s0.op)
+                else:
+                    new = ceval.ev(s0.children[1], env)
+                if new is None:
+                    bad = "?"
+                    break
+                if (bool(new) != bool(col)) != want_flip and bad is None:
+                    bad = (col, "first" if ph == first else "second", new)
+        if bad == "?":
+            ck.inconclusive(rid, inst, s0.where, "colour update `%s` not evaluable" % X.show(s0)[:80], cfg)
+        elif bad:
+            ck.violated(rid, inst, s0.where, "the colour %s when the %s reduction of a round completes (gvt_phase %d -> %d): messages sent between the two reductions are counted with the wrong colour, "
+                        "so a rank stops waiting while one of them is still in flight" % ("does not change" if bad[1] == "first" else "changes", bad[1], bad[0], bad[2]), cfg)
+        else:
+            ck.holds(rid, inst, s0.where, "gvt_phase flips exactly when the first reduction of a round completes, not at the second", cfg)
+    # closed colour: every per-colour counter the node automaton touches is indexed with the colour that has just been closed
+    k = 0
+    for x in g.walk():
+        if x.k != "ArraySubscriptExpr":
+            continue
+        base = X.strip(x.children[0])
+        if base.k == "DeclRefExpr" and base.name in ("remote_msg_seq", "last_seq", "remote_msg_received"):
+            k += 1
+            inst = "closed-colour:%s@%d" % (base.name, k)
+            vals = [ceval.ev(x.children[1], {"gvt_phase": c}) for c in (0, 1)]
+            if None in vals:
+                ck.inconclusive(rid, inst, x.where, "colour index `%s` not evaluable" % X.show(x.children[1]), cfg)
+            elif vals == [1, 0]:
+                ck.holds(rid, inst, x.where, "%s[!gvt_phase]: the colour closed by the flip" % base.name, cfg)
+            else:
+                ck.violated(rid, inst, x.where, "%s is indexed with `%s` (= %s for gvt_phase 0/1): after the flip the counts of the round being closed are those of the OTHER colour; "
+                            "the ranks agree on a number of messages that is not the number in flight" % (base.name, X.show(x.children[1]), vals), cfg)
+    ck.expect(rid, k, 5, "per-colour counters in the node automaton")
+    # read-and-clear of the received counter
+    adds = [a for a in Q.atomics(g) if Q.atomic_kind(a) == "rmw" and Q.atomic_target(a)[1] == "total_msg_received" and len(a.children) > 1
+            and any(y.k == "DeclRefExpr" and y.name == "remote_msg_received" for y in a.children[1].walk())]
+    inst = "read-and-clear:remote_msg_received"
+    if len(adds) != 1:
+        ck.inconclusive(rid, inst, g.where, "the hand-over of the per-thread received count was not recognised", cfg)
+    else:
+        a = adds[0]
+        elem = [y for y in a.children[1].walk() if y.k == "ArraySubscriptExpr"]
+        etxt = X.show(elem[0]) if elem else "?"
+        clears = [s for s in g.walk() if s.k == "BinaryOperator" and s.op == "=" and X.show(X.strip(s.children[0])) == etxt and X.is_zero(s.children[1])]
+        if not clears:
+            ck.violated(rid, inst, a.where, "%s is added to the node's total but never cleared: the same receptions are counted again in the next round of that colour, and the rank "
+                        "stops waiting while messages are still in flight" % etxt, cfg)
+        else:
+            w = g.cfg.escapes(g.cfg.position(a), {c.id for c in clears}, goal="exit")
+            if w:
+                ck.violated(rid, inst, a.where, "a path leaves the step after adding %s to the total without clearing it" % etxt, cfg)
+            else:
+                ck.holds(rid, inst, clears[0].where, "%s is cleared on every path after it was added to the total" % etxt, cfg)
